@@ -32,7 +32,7 @@ for p in sorted(glob.glob(os.path.join(C, '*.patch'))):
 n_silent = sum(1 for r in rows if r[1].startswith('silent'))
 with open(os.path.join(C, 'STATUS.md'), 'w') as fh:
     fh.write('# Refactoring corpus: status of the behaviour-preserving variants\n\n')
-    fh.write('%d variants (`*-v<n>` and `*-w<n>`: non-trivial refactorings of rounds 1 and 2, `*-m<n>`: small edits), written by independent sub-agents from the\n'
+    fh.write('%d variants (`*-v<n>`, `*-w<n>`, `*-x<n>`: non-trivial refactorings of rounds 1, 2 and 3, `*-m<n>`: small edits), written by independent sub-agents from the\n'
              'property text alone; %d are silent on all twenty checks. A variant is part of `./check selftest` (selftest/benign/) for\n'
              'the related checks on which it is silent. Alarms listed here are **known false alarms** of the rules (DESIGN §12.7).\n\n' % (len(rows), n_silent))
     fh.write('| variant | status | what the author changed |\n|---|---|---|\n')
